@@ -55,6 +55,7 @@ type fuzzEnv struct {
 	classes  []string
 	variant  string
 	sigStore []string
+	now      time.Time
 }
 
 func panicKey(stack string) string {
@@ -101,7 +102,14 @@ var (
 func (f *fuzzEnv) class(s string) { f.classes = append(f.classes, s) }
 
 func (f *fuzzEnv) hostileInt() sdk.Int {
-	switch f.r.Intn(8) {
+	switch f.r.Intn(10) {
+	case 8:
+		// the largest representable Int: adding anything positive to it overflows
+		f.class("int:2^256-1")
+		return sdk.NewIntFromBigInt(new(big.Int).Sub(new(big.Int).Lsh(big.NewInt(1), 256), big.NewInt(1)))
+	case 9:
+		f.class("int:2^63")
+		return sdk.NewIntFromBigInt(new(big.Int).Add(new(big.Int).Lsh(big.NewInt(1), 63), big.NewInt(int64(f.r.Intn(3)-1))))
 	case 0:
 		f.class("int:nil")
 		return sdk.Int{}
@@ -155,7 +163,16 @@ func (f *fuzzEnv) hostileDenom() string {
 }
 
 func (f *fuzzEnv) hostileCoins() sdk.Coins {
-	switch f.r.Intn(10) {
+	switch f.r.Intn(12) {
+	case 10:
+		f.class("coins:hostile-amount")
+		if a := f.hostileInt(); !a.IsNil() {
+			return sdk.Coins{sdk.Coin{Denom: "uc4e", Amount: a}}
+		}
+		return sdk.Coins{sdk.Coin{Denom: "uc4e", Amount: sdk.OneInt()}}
+	case 11:
+		f.class("coins:two-denoms")
+		return sdk.NewCoins(sdk.NewCoin("foo", sdk.NewInt(int64(1+f.r.Intn(1000)))), sdk.NewCoin("uc4e", sdk.NewInt(int64(1+f.r.Intn(100000)))))
 	case 0:
 		f.class("coins:nil")
 		return nil
@@ -418,7 +435,7 @@ func runC20(c *fw.Case) {
 		c.Inconclusive("beginblock: %v", err)
 		return
 	}
-	f := &fuzzEnv{e: e, r: c.R}
+	f := &fuzzEnv{e: e, r: c.R, now: now}
 	for a := range e.keys {
 		f.addrs = append(f.addrs, a)
 	}
@@ -437,6 +454,7 @@ func runC20(c *fw.Case) {
 	// commit what has been built so far (ABCI queries read committed state) and open the next block
 	if _, _, err := e.n.EndBlock(); err == nil {
 		now = now.Add(6 * time.Second)
+		f.now = now
 		if _, err := e.n.BeginBlock(now); err != nil {
 			c.Inconclusive("beginblock: %v", err)
 			return
@@ -759,6 +777,20 @@ func (f *fuzzEnv) nearValid() sdk.Msg {
 		auth = f.hostileString("authority")
 	}
 	if f.r.Intn(3) == 0 {
+		// a vesting message that the scenario generator considers valid in the current state
+		// (existing owner, pool, vesting account ...), one field made hostile
+		for try := 0; try < 5; try++ {
+			if op := f.e.genOp0(f.r, f.now); op.custom {
+				f.class("nv:vesting-" + op.kind)
+				if f.r.Intn(8) != 0 {
+					f.mutateOneLeaf(reflect.ValueOf(op.msg).Elem())
+				}
+				return op.msg
+			}
+		}
+		return nil
+	}
+	if f.r.Intn(2) == 0 {
 		sds := gen.SubDistributors(f.r, gen.DistOpts{BaseAddrs: f.addrs[:4], MaxSubs: 4})
 		if sds == nil {
 			return nil
